@@ -314,16 +314,15 @@ Proof. vm_compute. reflexivity. Qed.
    in a single step ([solos] = upd := the sequential run of the body; relational, because Choice/Loop/Block are
    nondeterministic in the IR; thread-local state flows from one operation of a thread to its next).
    Hypothesis on the code ([msec_cont MOut k], decidable, evaluated on the generated bodies below): the code of
-   every thread is a sequence of EXCLUSIVE critical sections, each accessing only fields of its own lock, no access
-   outside a section - loops, choices and blocking operations are allowed everywhere, no fuel / termination
-   assumption is needed.
+   every thread is a sequence of UN-NESTED critical sections - exclusive (Lock), or shared (RLock) and then
+   read-only - each accessing only fields of its own lock, no access outside a section; loops, choices and blocking
+   operations are allowed everywhere, no fuel / termination assumption is needed.
 
    What this closes: hypothesis (H1)+(H2) of part 4 is no longer a modelling step - the fine-grained executions of
    the IR bodies of the exported store methods ARE (up to the configuration reached whenever nobody holds a lock)
    executions of the operation-level model.
-   What remains outside: (a) threads that are not of this shape - nested sections (Hub.mu > Frames.mu: GetStats,
-   statsReporter), shared (RLock) sections, accesses outside any section do not occur in well-locked code but pools
-   mixing section-threads with such threads are not covered; (b) the atomic model here is relational and carries
+   What remains outside: (a) threads with NESTED sections (Frames.mu inside Hub.mu: GetStats, the status handler,
+   statsReporter): a pool containing such a thread is not covered by the theorem; (b) the atomic model here is relational and carries
    thread-local state, part 4's [SerialEq] has a functional upd without local state - that the former instantiates
    to the latter for deterministic bodies is not formalised; (c) as before, the meaning of Rd/Wr ([rd], [wr]) is
    arbitrary here: the real bodies' effect is the C02/C10/C08 models'. *)
@@ -370,7 +369,7 @@ Print Assumptions C12_reduction_schedule.
 Print Assumptions C12_reduction_step.
 
 (* per-run obligation on the regenerated IR: every exported method of CodeStore, deny.Store, chanmap.Store is a
-   sequence of exclusive sections on its own lock with no access outside (checked here by vm_compute) *)
+   sequence of un-nested sections on its own lock with no access outside (checked here by vm_compute) *)
 Example gen_store_methods_exclusive_sections : msec_prog LockGen.store_methods LockGen.prog = true.
 Proof. vm_compute. reflexivity. Qed.
 
@@ -388,9 +387,9 @@ Proof.
 Qed.
 Print Assumptions C12_relay_store_methods_reduce.
 
-(* more generally: every generated body that is a sequence of exclusive sections (on the current tree: all goroutine
-   bodies and handlers except Hub.run [one RLock section], Hub.GetStats / the status handler / statsReporter
-   [shared sections on Frames.mu nested in one on Hub.mu]) - any pool of such threads reduces to atomic sections *)
+(* more generally: every generated body that is a sequence of un-nested sections (on the current tree: all goroutine
+   bodies and handlers, Hub.run included, except Hub.GetStats / the status handler / statsReporter, whose shared
+   sections on Frames.mu are nested in one on Hub.mu) - any pool of such threads reduces to atomic sections *)
 Definition reducible_names : list string :=
   map fst (filter (fun e => msec_sfn (snd e)) LockGen.prog).
 Definition not_reducible := Eval vm_compute in
